@@ -3,6 +3,11 @@
 //! request), half-closes, and reads what the listener answers until it closes the connection.
 //!
 //! case: 18 7 b_1 .. b_n      result: m r_1 .. r_m  (the bytes answered; 999997 = no connection, 999996 = not closed in time)
+//!
+//! A second client is connected to an in-process tunnel server (a real `Multiplexor`) that records the target of every
+//! stream request it receives: a local connection sends a complete CONNECT request (version 4, 4a or 5), reads the
+//! reply, and the harness reports the reply together with the host and port that reached the server.
+//! case: 18 8 b_1 .. b_n      result: m r_1 .. r_m  h host_1 .. host_h  port   (999995 = no stream request arrived)
 use crate::util::*;
 use rusty_penguin_lib::arg::{ClientArgs, Remote, ServerUrl};
 use rusty_penguin_lib::client::{HandlerResources, client_main_inner};
@@ -14,6 +19,8 @@ use tokio::net::TcpStream;
 pub struct Socksd {
     rt: tokio::runtime::Runtime,
     port: u16,
+    port2: u16,
+    seen: std::sync::Arc<std::sync::Mutex<Vec<(Vec<u8>, u16)>>>,
 }
 
 impl Socksd {
@@ -40,7 +47,97 @@ impl Socksd {
                 tokio::time::sleep(Duration::from_millis(10)).await;
             }
         });
-        Self { rt, port }
+        // the second client, with a tunnel
+        let seen: std::sync::Arc<std::sync::Mutex<Vec<(Vec<u8>, u16)>>> = std::sync::Arc::default();
+        let port2 = alloc_port();
+        let seen2 = seen.clone();
+        rt.block_on(async {
+            let listener = tokio::net::TcpListener::bind("127.0.0.1:0").await.unwrap();
+            let sport = listener.local_addr().unwrap().port();
+            tokio::spawn(async move {
+                while let Ok((tcp, _)) = listener.accept().await {
+                    let seen = seen2.clone();
+                    tokio::spawn(async move {
+                        #[allow(clippy::result_large_err)]
+                        let cb = |_req: &tokio_tungstenite::tungstenite::handshake::server::Request, mut resp: tokio_tungstenite::tungstenite::handshake::server::Response| {
+                            resp.headers_mut().insert("sec-websocket-protocol", http::HeaderValue::from_static(penguin_mux::PROTOCOL_VERSION));
+                            Ok(resp)
+                        };
+                        let Ok(ws) = tokio_tungstenite::accept_hdr_async(tcp, cb).await else { return };
+                        let mux = penguin_mux::Multiplexor::new(ws);
+                        while let Ok(stream) = mux.accept_stream_channel().await {
+                            seen.lock().unwrap().push((stream.dest_host.to_vec(), stream.dest_port));
+                            drop(stream);
+                        }
+                    });
+                }
+            });
+            let args: &'static ClientArgs = Box::leak(Box::new(ClientArgs {
+                server: ServerUrl::from_str(&format!("ws://127.0.0.1:{sport}/ws")).unwrap(),
+                remote: vec![Remote::from_str(&format!("127.0.0.1:{port2}:socks")).unwrap()],
+                keepalive: penguin_mux::timing::OptionalDuration::NONE,
+                ..Default::default()
+            }));
+            let (hr, srx, drx) = HandlerResources::create();
+            let hr: &'static HandlerResources = Box::leak(Box::new(hr));
+            tokio::spawn(client_main_inner(args, hr, srx, drx));
+            for _ in 0..500 {
+                if TcpStream::connect(("127.0.0.1", port2)).await.is_ok() {
+                    break;
+                }
+                tokio::time::sleep(Duration::from_millis(10)).await;
+            }
+            tokio::time::sleep(Duration::from_millis(100)).await;
+        });
+        Self { rt, port, port2, seen }
+    }
+
+    /// a complete CONNECT request through the client with a tunnel: the reply and the target that reached the server
+    pub fn run_connect(&self, c: &[u64]) -> Vec<u64> {
+        let bytes: Vec<u8> = c.iter().map(|&x| x as u8).collect();
+        let (port, seen) = (self.port2, self.seen.clone());
+        self.rt.block_on(async move {
+            let before = seen.lock().unwrap().len();
+            let Ok(mut s) = TcpStream::connect(("127.0.0.1", port)).await else { return vec![999_997] };
+            let cut = bytes.len() / 2;
+            let _ = s.write_all(&bytes[..cut]).await;
+            let _ = s.flush().await;
+            tokio::time::sleep(Duration::from_millis(2)).await;
+            let _ = s.write_all(&bytes[cut..]).await;
+            // the reply: 2 + 10 octets (version 5) or 8 (version 4); whatever arrives within the time limit
+            let want = if bytes.first() == Some(&5) { 12 } else { 8 };
+            let mut got = Vec::new();
+            let mut buf = [0u8; 64];
+            let _ = tokio::time::timeout(Duration::from_secs(3), async {
+                while got.len() < want {
+                    match s.read(&mut buf).await {
+                        Ok(0) | Err(_) => break,
+                        Ok(n) => got.extend_from_slice(&buf[..n]),
+                    }
+                }
+            })
+            .await;
+            drop(s);
+            let mut target = None;
+            for _ in 0..200 {
+                if let Some(t) = seen.lock().unwrap().get(before).cloned() {
+                    target = Some(t);
+                    break;
+                }
+                tokio::time::sleep(Duration::from_millis(10)).await;
+            }
+            let mut out = vec![got.len() as u64];
+            out.extend(got.iter().map(|&b| u64::from(b)));
+            match target {
+                Some((h, p)) => {
+                    out.push(h.len() as u64);
+                    out.extend(h.iter().map(|&b| u64::from(b)));
+                    out.push(u64::from(p));
+                }
+                None => out.push(999_995),
+            }
+            out
+        })
     }
 
     pub fn run_case(&self, c: &[u64]) -> Vec<u64> {
@@ -82,6 +179,57 @@ impl Socksd {
 pub fn generate(a: &Args, out: &mut Out) {
     let w = Socksd::new();
     let mut rng = Rng(a.seed ^ 0x1807);
+    // CONNECT requests through the tunnel: the target the server is asked for is the one of the request, byte for byte
+    {
+        let mut emit8 = |bytes: Vec<u8>, out: &mut Out| {
+            let mut c = vec![18u64, 8];
+            c.extend(bytes.iter().map(|&b| u64::from(b)));
+            let r = w.run_connect(&c[2..]);
+            out.emit(&c, &r);
+        };
+        // domain names with every kind of octet (not valid UTF-8 included; no NUL in a version 4a name)
+        let names: Vec<Vec<u8>> = vec![
+            b"localhost".to_vec(),
+            b"caf\xe9.example".to_vec(),
+            vec![0xff, 0xfe, 0x80, b'.', b'x'],
+            (1u8..=255).collect(),
+            vec![b'a'],
+            b"xn--bcher-kva.example".to_vec(),
+        ];
+        for name in &names {
+            // version 5, domain
+            let mut g = vec![5, 1, 0, 5, 1, 0, 3, name.len() as u8];
+            g.extend(name);
+            g.extend([0x1f, 0x90]);
+            emit8(g, out);
+            // version 4a
+            let mut g = vec![4, 1, 0x1f, 0x90, 0, 0, 0, 7];
+            g.extend(b"user\0");
+            g.extend(name.iter().filter(|&&b| b != 0));
+            g.push(0);
+            emit8(g, out);
+        }
+        emit8(vec![5, 1, 0, 5, 1, 0, 1, 10, 0, 200, 255, 0, 80], out);
+        emit8(vec![4, 1, 0, 80, 10, 0, 200, 255, 0], out);
+        emit8(vec![4, 1, 255, 255, 1, 2, 3, 4, b'u', 0], out);
+        for _ in 0..(a.n / 6) {
+            let n = 1 + rng.below(40) as usize;
+            let name: Vec<u8> = (0..n).map(|_| 1 + rng.below(255) as u8).collect();
+            let port = [rng.below(256) as u8, rng.below(256) as u8];
+            if rng.chance(1, 2) {
+                let mut g = vec![5, 2, 2, 0, 5, 1, 0, 3, n as u8];
+                g.extend(&name);
+                g.extend(port);
+                emit8(g, out);
+            } else {
+                let mut g = vec![4, 1, port[0], port[1], 0, 0, 0, 1 + rng.below(255) as u8];
+                g.extend(b"u\0");
+                g.extend(&name);
+                g.push(0);
+                emit8(g, out);
+            }
+        }
+    }
     let mut emit = |bytes: Vec<u8>, out: &mut Out| {
         let mut c = vec![18u64, 7];
         c.extend(bytes.iter().map(|&b| u64::from(b)));
@@ -92,7 +240,16 @@ pub fn generate(a: &Args, out: &mut Out) {
     let request = |rng: &mut Rng| -> Vec<u8> {
         let cmd = rng.pick(&[2u8, 2, 4, 0, 9]);
         let mut r = vec![5, cmd, 0];
-        match rng.below(3) {
+        match rng.below(5) {
+            3 => {
+                // an address type that does not exist (answered "address type not supported")
+                r.extend([rng.pick(&[0u8, 2, 5, 9]), 1, 2, 3, 4]);
+            }
+            4 => {
+                // the request's own version byte is wrong
+                r[0] = rng.pick(&[4u8, 6, 0]);
+                r.extend([1, 127, 0, 0, 1]);
+            }
             0 => r.extend([1, 127, 0, 0, 1]),
             1 => {
                 r.extend([3, 9]);
@@ -123,6 +280,32 @@ pub fn generate(a: &Args, out: &mut Out) {
     }
     emit(vec![5, 0], out);
     emit(vec![5], out);
+    emit(vec![6, 1, 0], out);
+    emit(vec![0], out);
+    // version 4 / 4a requests with other commands than CONNECT
+    let v4 = |rng: &mut Rng| -> Vec<u8> {
+        let cmd = rng.pick(&[2u8, 2, 0, 3, 9]);
+        let mut r = vec![4, cmd, 0, 80];
+        let a4 = rng.chance(1, 2);
+        if a4 {
+            r.extend([0, 0, 0, rng.pick(&[1u8, 7, 255])]);
+        } else {
+            r.extend([127, 0, 0, 1]);
+        }
+        let ulen = rng.pick(&[0usize, 1, 4, 30]);
+        r.extend((0..ulen).map(|i| b'a' + (i % 26) as u8));
+        r.push(0);
+        if a4 {
+            let dlen = rng.pick(&[0usize, 1, 9, 60]);
+            r.extend((0..dlen).map(|i| b'k' + (i % 10) as u8));
+            r.push(0);
+        }
+        r
+    };
+    for _ in 0..12 {
+        let r = v4(&mut rng);
+        emit(r, out);
+    }
     for _ in 0..a.n {
         let n = rng.below(7) as usize;
         let mut ms: Vec<u8> = (0..n).map(|_| rng.pick(&[0u8, 1, 2, 2, 3, 0x80, 0xff, 1])).collect();
@@ -140,5 +323,13 @@ pub fn generate(a: &Args, out: &mut Out) {
             g.extend(r);
         }
         emit(g, out);
+        if rng.chance(1, 4) {
+            let mut r = v4(&mut rng);
+            if rng.chance(1, 5) {
+                let k = 1 + rng.below(r.len() as u64 - 1) as usize;
+                r.truncate(k);
+            }
+            emit(r, out);
+        }
     }
 }
